@@ -41,6 +41,8 @@ def run(ctx, report):
     report.section("keys and splitting", keys_and_split, ctx, report)
     from . import webvtt_layout_fold, markup_writer_fold
     report.section("written DFXP documents", markup_writer_fold.run, ctx, report, {"layout": ("R-DOC-LAYOUT", "1")})
+    report.section("WebVTT whole documents", webvtt_layout_fold.run_cues, ctx, report, {
+        "verbatim": ("R-E2E", "4"), "split": ("R-E2E", "3")})
     from . import dfxp_reader_fold
     report.section("generated DFXP documents", dfxp_reader_fold.run, ctx, report, {
         "layout": ("R-DOC-LAYOUT", "1"), "roundtrip": ("R-ROUNDTRIP", "1")})
